@@ -1530,12 +1530,13 @@ def find_fragment_in_tokens(it, sel):
                 if not sub.eat("="): continue
                 found.append(sub.expr())
             except Unsupported: continue
-        if kind == "if" and t[:2] == ("id", "if") and toks[i + 1][:2] != ("id", "let"):
+        if kind in ("if", "iflast") and t[:2] == ("id", "if") and toks[i + 1][:2] != ("id", "let"):
             sub = P(toks, it["fname"]); sub.i = i + 1
             try: c = sub.expr(nostruct=True)
             except Unsupported: continue
             if mentions(c, name): found.append(c)
     if kind == "let": return found[0] if len(found) == 1 else None
+    if kind == "iflast": return found[-1] if found else None
     return found[0] if found else None
 
 def find_fragment(body, sel):
@@ -1546,12 +1547,13 @@ def find_fragment(body, sel):
     def walk(e):
         if isinstance(e, tuple):
             if kind == "let" and e[:1] == ("let",) and len(e) == 6 and e[1] == ("bind", name) and e[4] is not None: found.append(e[4])
-            if kind == "if" and e[:1] == ("if",) and len(e) == 4 and mentions(e[1], name): found.append(e[1])
+            if kind in ("if", "iflast") and e[:1] == ("if",) and len(e) == 4 and mentions(e[1], name): found.append(e[1])
             for x in e: walk(x)
         elif isinstance(e, list):
             for x in e: walk(x)
     walk(body)
     if kind == "let": return found[0] if len(found) == 1 else None
+    if kind == "iflast": return found[-1] if found else None
     return found[0] if found else None
 
 def translate_unit(unit, repo):
